@@ -10,7 +10,7 @@ func init() {
 	}
 	stubs := []string{"avalanchego timer.Timer: arming/cancelling/stopping/dispatching do nothing in the engine run (natively the real timer runs with a one-hour timeout); a timer expiry is a harness operation that executes a copy of the callback body registered in NewMessageBuffer (lock; return if closed or nothing pending; clearPending)", "logging = no-op"}
 	register(PropSpec{ID: "C32", Harnesses: []HarnessSpec{
-		{Name: "size", Pkg: "pubsub", Files: files, Entry: "VerifC32Size", Sched: true, IntMode: true, Redirects: timerStub,
+		{Name: "size", Pkg: "pubsub", Files: files, Entry: "VerifC32Size", Sched: true, IntMode: true, AbsMake: true, Redirects: timerStub,
 			Reach: []string{"accepted", "rejected"}, Stubs: append([]string{"message contents are abstract (only lengths are modelled), so is the content of the encoded batches"}, stubs...),
 			Assumptions: []string{"1 <= maxSize <= 2*maxMessageLen", "calls are sequential (Send/Close/timer callback hold the buffer lock for their whole body)"},
 			Outside:     []string{"more than maxMessages messages, messages longer than maxMessageLen", "a queue that fills up (harness order)"}},
@@ -18,7 +18,7 @@ func init() {
 			Reach: []string{"rejected", "dropped-on-full-queue"}, Stubs: stubs,
 			Assumptions: []string{"nobody reads the queue while the history runs (it is read after Close)", "calls are sequential"},
 			Outside:     []string{"more than maxOps operations, messages longer than maxMessageLen bytes, maxSize outside 3..6 (thorough 3..8)", "queue capacities other than 1 and never-full"}},
-		{Name: "codec", Pkg: "pubsub", Files: files, Entry: "VerifC32Codec",
+		{Name: "codec", Pkg: "pubsub", Files: files, Entry: "VerifC32Codec", AbsMake: true,
 			Outside: []string{"more than maxMessages messages, message lengths other than 0, 1, 2, 130"}},
 	}})
 }
